@@ -372,6 +372,17 @@ func checkEntry(e entry) {
 	for _, c := range reservedFollow {
 		instVals = append(instVals, fmt.Sprintf("v%%%02Xw", c))
 	}
+	// a parameter is searched for the first byte of the text behind it, on the escaped path when
+	// RawPath is set: when that byte is a hex digit, arguments whose escapes hold hex digits
+	hexFollow := false
+	for c := range follow {
+		if c >= '0' && c <= '9' || c >= 'A' && c <= 'F' || c >= 'a' && c <= 'f' {
+			hexFollow = true
+		}
+	}
+	if hexFollow {
+		instVals = append(instVals, "v%20w", "v%C3%A9", "%2A")
+	}
 	paths := map[string]bool{}
 	instances := map[string]bool{}
 	for _, ps := range parsed {
@@ -429,6 +440,17 @@ func checkEntry(e entry) {
 		if u, err := url.Parse("http://x" + path); err == nil && u.RawPath == "" && strings.Contains(path, "%") {
 			if norm, ok := refNormalize(path); ok && norm != u.Path {
 				attrs["go_canonical_spelling_with_escaped_reserved_byte"] = "true"
+			}
+		}
+		// the byte that ends a parameter occurs as a hex digit of an escape in the (normalized) path
+		if norm, ok := refNormalize(path); ok && hexFollow {
+			for i := 0; i+2 < len(norm); i++ {
+				if norm[i] == '%' {
+					if follow[norm[i+1]] || follow[norm[i+2]] {
+						attrs["follow_byte_is_a_hex_digit_of_an_escape"] = "true"
+					}
+					i += 2
+				}
 			}
 		}
 		drv.Violation(attrs, len(path)+10*len(e.templates)+len(strings.Join(e.templates, "")),
